@@ -1,4 +1,5 @@
 import AcraModel.Sql.LiteralLemmas
+import AcraModel.Sql.Ident
 /-!
 # C13 — re-serialised statements mean the same as the statements received
 
@@ -58,8 +59,27 @@ theorem escape_string_roundtrip (b rest : Bytes) (h : rest.head? ≠ some quote)
   simp only [List.cons_append, List.tail_cons, List.append_assoc, List.singleton_append]
   exact scan_escape_body codecFacts quote (Or.inl rfl) b f rest h
 
+open AcraModel.Sql.Ident in
+/-- **Quoted identifiers round-trip.** Any non-empty name, printed in quotes with its quote characters doubled
+(`formatIDForDialect` for names that need escaping, `writeQuotedID` for names written in quotes), is read back by
+`scanLiteralIdentifier` as exactly that name, consuming exactly the quoted text (dialects with one identifier quote
+character: MySQL default mode and PostgreSQL). -/
+theorem ident_roundtrip (q : UInt8) (name rest : Bytes) (hne : name ≠ []) (h : rest.head? ≠ some q) :
+    scanQuotedIdent q ((quoteIdent q name).tail ++ rest) = some (name, rest) := by
+  unfold quoteIdent scanQuotedIdent
+  simp only [List.cons_append, List.tail_cons, List.append_assoc, List.nil_append]
+  rw [scanBody_quoted q name rest h]
+  cases name with
+  | nil => exact absurd rfl hne
+  | cons c cs => simp
+
 /-- non-vacuity: a value with every special byte, starting with the `\x` prefix -/
 example : scanString quote true ((encodeBytesSQL [92, 120, 0, 39, 34, 92, 10, 255, 120]).tail ++ [32, 97]) =
     some ([92, 120, 0, 39, 34, 92, 10, 255, 120], [32, 97]) := literal_roundtrip _ _ (by decide)
+
+open AcraModel.Sql.Ident in
+/-- non-vacuity: the name a"b"" in PostgreSQL quotes, followed by a dot -/
+example : scanQuotedIdent 34 ((quoteIdent 34 [97, 34, 98, 34, 34]).tail ++ [46, 120]) = some ([97, 34, 98, 34, 34], [46, 120]) :=
+  ident_roundtrip _ _ _ (by decide) (by decide)
 
 end AcraModel.Props.C13
